@@ -171,7 +171,7 @@ pub fn check_case(
             if !ok {
                 c22_ok = false;
                 crate::violation_capped(&mut ms.c22, 
-                    &format!("c22:expected-ffi-error-observed-{observed}"),
+                    &class.map(|c| format!("c22:{c}")).unwrap_or(format!("c22:expected-ffi-error-observed-{observed}")),
                     json!({"case": replay(), "observed_exit": format!("{:?}", vm.exit)}),
                 );
             }
